@@ -154,7 +154,8 @@ Theorem poll_stocked s chains h bufsz u_idx u_id u_len addr ae uf o s' evs :
   | Err e =>
       (e = EWrongToken /\ q_size s <= w16 u_id /\ s' = s /\ evs = [])
       \/ (e = EIoError /\ bufsz < w32 u_len /\ w16 u_id < q_size s
-          /\ exists chains' h', Reach s' chains' h' /\ lenN chains' + 1 = q_size s')
+          /\ q_last_used s' = w16 (q_last_used s + 1)
+          /\ exists chains' h', Reach s' chains' h' /\ Stocked s' chains' bufsz)
   | Panic | UB => False
   end.
 Proof.
@@ -178,16 +179,13 @@ Proof.
   { apply Forall_app in Hst. destruct Hst as [A B]. inversion B; subst. apply Forall_app. split; assumption. }
   assert (Hlen1 : lenN (pre ++ post) + 1 = q_size s1).
   { rewrite Hsz, <- Hlen, !lenN_app, lenN_cons. lia. }
-  destruct (N.ltb_spec bufsz (w32 u_len)) as [E3|E3].
-  { inversion Hrun; subst. right. repeat split; auto. eauto. }
-  (* re-post *)
+  (* re-post, whatever the length was *)
   unfold owning_readd in Hrun. rewrite Hsz in Hrun.
   destruct (N.leb_spec (q_size s) (w16 u_id)) as [E4|_]; [lia|].
   destruct (lifo_token s pre c post h [] [obuf (w16 u_id) bufsz 0] u_idx u_id u_len s1 evs1
               (obuf (w16 u_id) bufsz addr) true 0 HR Hkeys
               ltac:(rewrite Hhead; exact Hpop) Hb0 Hb32) as (s2 & evs2 & Hadd).
   cbn iota in Hadd. rewrite Hhead in Hadd. rewrite Hadd in Hrun. rewrite N.eqb_refl in Hrun.
-  inversion Hrun; subst o s' evs. clear Hrun.
   assert (Hok : bufs_ok (tag_bufs [] [obuf (w16 u_id) bufsz addr])).
   { constructor; [split; assumption|constructor]. }
   destruct (add_publishes s1 (pre ++ post) _ [] [obuf (w16 u_id) bufsz addr] 0 _ _ _ (fun _ => None) HR1 Hok Hadd)
@@ -202,15 +200,46 @@ Proof.
       as (sx & ex & cx & Hr & _ & _ & _ & _ & _ & _ & Hl & Hs & _).
     rewrite Hr in Hadd. inversion Hadd; subst. split; assumption. }
   destruct Hsz2 as [Hsz2 Hlu2].
-  split; [exact E1|]. split; [reflexivity|]. split; [exact E2|]. split; [reflexivity|]. split; [exact E3|].
-  split; [now rewrite Hlu2|].
   set (nc := new_chain s1 [] [obuf (w16 u_id) bufsz addr] 0) in *.
-  exists ((pre ++ post) ++ [nc]). eexists. split; [exact HR2|].
-  split.
-  - apply Forall_app. split; [exact Hst1|]. constructor; [|constructor].
-    unfold stock_chain. subst nc. unfold new_chain. cbn [tag_bufs map app].
-    change (lenN [(obuf (w16 u_id) bufsz addr, true)]) with 1. change (1 <? 1) with false.
-    rewrite andb_false_r. cbn [length free_take c_idxs c_head c_tbl c_bufs].
-    rewrite Hfh, Hhead. repeat split. exists addr. reflexivity.
-  - rewrite lenN_app, lenN_cons, lenN_nil, Hsz2. lia.
+  assert (Hstock2 : exists chains' h', Reach s2 chains' h' /\ Stocked s2 chains' bufsz).
+  { exists ((pre ++ post) ++ [nc]). eexists. split; [exact HR2|]. split.
+    - apply Forall_app. split; [exact Hst1|]. constructor; [|constructor].
+      unfold stock_chain. subst nc. unfold new_chain. cbn [tag_bufs map app].
+      change (lenN [(obuf (w16 u_id) bufsz addr, true)]) with 1. change (1 <? 1) with false.
+      rewrite andb_false_r. cbn [length free_take c_idxs c_head c_tbl c_bufs].
+      rewrite Hfh, Hhead. repeat split. exists addr. reflexivity.
+    - rewrite lenN_app, lenN_cons, lenN_nil, Hsz2. lia. }
+  destruct (N.ltb_spec bufsz (w32 u_len)) as [E3|E3]; inversion Hrun; subst o s' evs; clear Hrun.
+  - right. split; [reflexivity|]. split; [exact E3|]. split; [exact E2|]. split; [now rewrite Hlu2|]. exact Hstock2.
+  - split; [exact E1|]. split; [reflexivity|]. split; [exact E2|]. split; [reflexivity|]. split; [exact E3|].
+    split; [now rewrite Hlu2|]. exact Hstock2.
+Qed.
+
+(* Before the repair a completion carrying a length above BUFFER_SIZE left its buffer un-posted. A device
+   that then names the same buffer again makes the old code call pop_used for a token that heads no
+   outstanding chain - outside pop_used's contract - and the platform is asked to unshare device address 0,
+   which was never the answer of a share. *)
+Example poll_prefix_refuted :
+  exists s0 evs0 s1 evs1 s2 evs2,
+    owning_new_loop [100; 200] 0 8 (qnew 2 false false) = (Ok tt, s0, evs0)
+    /\ owning_poll_prefix s0 8 1 0 9 300 0 0 = (Err EIoError, s1, evs1)
+    /\ owning_poll_prefix s1 8 2 0 4 400 0 0 = (Ok (Some (4, 0)), s2, evs2)
+    /\ In (OQ (QUnshare 0 0 8 true)) evs2
+    /\ ~ In (ShBuf 0 0 8 true) (shares_of evs0).
+Proof.
+  do 6 eexists. split; [vm_compute; reflexivity|]. split; [vm_compute; reflexivity|].
+  split; [vm_compute; reflexivity|]. split; [vm_compute; tauto|].
+  vm_compute. intros [H|[H|[]]]; discriminate H.
+Qed.
+
+(* ... while the repaired code keeps the queue stocked on the same device behaviour *)
+Example poll_fixed_on_witness :
+  exists s0 evs0 s1 evs1 s2 evs2,
+    owning_new_loop [100; 200] 0 8 (qnew 2 false false) = (Ok tt, s0, evs0)
+    /\ owning_poll s0 8 1 0 9 300 0 0 = (Err EIoError, s1, evs1)
+    /\ owning_poll s1 8 2 0 4 400 0 0 = (Ok (Some (4, 0)), s2, evs2)
+    /\ In (OQ (QUnshare 300 0 8 true)) evs2 /\ q_num_used s2 = 2.
+Proof.
+  do 6 eexists. split; [vm_compute; reflexivity|]. split; [vm_compute; reflexivity|].
+  split; [vm_compute; reflexivity|]. split; [vm_compute; tauto|]. vm_compute. reflexivity.
 Qed.
